@@ -12,6 +12,7 @@ func init() {
 			"FE-BOOL + LP-DROP: And keeps iff both, Or iff either; the right operand sees the input line or a kept line",
 			"EFFECT: LineFilter, LabelMatcher and the string/ip matchers write neither receiver nor label set; typed label filters write only SetError; DistinctFilter is stateful (excluded by the property's wording)",
 			"LP-PIPE: one Process call per stage per record",
+			"LP-OFFLOAD provenance: a pipeline label filter is never offloaded as selector matcher",
 		},
 		NotDecided: []string{"strings.Contains(s, \"\") being true (library semantics)", "regexp engine semantics"},
 		Rules: func(r *Run) {
